@@ -538,6 +538,28 @@ func (e *Exec) symIntBin(op token.Token, t types.Type, x, y Value) Value {
 				return ret(f.Mod(X, f.Int(m)))
 			}
 		}
+		// operands whose value is already determined by the path condition are made concrete (no fork); otherwise
+		// 64-bit operations go through two's complement in the solver instead of enumerating operand values
+		var ux, uy *big.Int
+		okx, oky := false, false
+		if e.P.IntBits {
+			ux, okx = e.uniqueValue(X)
+			uy, oky = e.uniqueValue(Y)
+			if okx && oky {
+				return e.concIntBin(op, t, e.bigToPattern(ux), e.bigToPattern(uy))
+			}
+		}
+		if e.P.IntBits && intWidth(t) == 64 && op != token.AND_NOT && e.spec == 0 {
+			name := map[token.Token]string{token.AND: "and", token.OR: "or", token.XOR: "xor"}[op]
+			e.note("bit operation on symbolic integers in math mode encoded through int2bv/bv2int")
+			if okx {
+				X = f.Int(ux)
+			}
+			if oky {
+				Y = f.Int(uy)
+			}
+			return ret(e.norm(f.IntBit(name, X, Y), t))
+		}
 		cx := e.concInt(x, t)
 		cy := e.concInt(y, t)
 		return e.concIntBin(op, t, cx, cy)
@@ -1011,4 +1033,40 @@ func divExact(f *TF, t *Term, d *big.Int) (*Term, bool) {
 		}
 	}
 	return nil, false
+}
+
+// uniqueValue reports whether the path condition determines the value of t (one solver query; cached).
+func (e *Exec) uniqueValue(t *Term) (*big.Int, bool) {
+	if t.IsConst() {
+		return t.IV, true
+	}
+	if v, ok := e.known[t]; ok {
+		return v, true
+	}
+	if e.notUnique[t] {
+		return nil, false
+	}
+	if e.spec > 0 {
+		panic(specAbort{"uniqueness query inside a speculative region"})
+	}
+	e.live()
+	mv, err := Eval(t, e.model)
+	if err != nil {
+		return nil, false
+	}
+	r, _, _ := e.solver.CheckWithVars(e.tf.Not(e.tf.Eq(t, e.constLike(t, mv.I))), nil)
+	e.res.Queries++
+	if r == "unsat" {
+		e.known[t] = mv.I
+		return mv.I, true
+	}
+	e.notUnique[t] = true
+	return nil, false
+}
+
+func (e *Exec) bigToPattern(v *big.Int) uint64 {
+	if v.Sign() < 0 {
+		return uint64(v.Int64())
+	}
+	return v.Uint64()
 }
